@@ -477,3 +477,22 @@ def blen_mono(x: Int, y: Int):
     decreases(y)
     if x > 0:
         blen_mono(x // 2, y // 2)
+
+
+@uninterpreted
+def text_decode(octets, encoding) -> Str:
+    """bytes.decode(encoding) (assumed builtin: a function of the octets and the codec name)"""
+    return bytes(octets).decode(encoding)
+
+
+@uninterpreted
+def text_encode(text, encoding) -> Seq:
+    return list(text.encode(encoding))
+
+
+def concat_all(segments):
+    """concatenation of a (concrete-length) list of octet strings"""
+    out = []
+    for s in segments:
+        out = out + list(s)
+    return out
